@@ -34,6 +34,12 @@ def _bit_length(x):
   return int(x).bit_length()
 
 
+def _pow2(e):
+  if e < 0 or e > 100000:
+    raise QuantifierTooLarge(f"2**{e} not evaluated concretely")
+  return 2 ** e
+
+
 def _is_prime(p):
   import sympy
   return bool(sympy.isprime(int(p)))
@@ -41,8 +47,8 @@ def _is_prime(p):
 
 NS = {
     "_rng": _rng, "is_square": _is_square, "isqrt": math.isqrt, "ceil_sqrt": _ceil_sqrt,
-    "pow2": lambda e: 2 ** e, "bit_length": _bit_length, "gcd": math.gcd, "divides": _divides,
-    "powmod": lambda a, e, m: pow(a, e, m), "is_prime": _is_prime, "fits": lambda r, n: 0 <= r < 2 ** n,
+    "pow2": _pow2, "bit_length": _bit_length, "gcd": math.gcd, "divides": _divides,
+    "powmod": lambda a, e, m: pow(a, e, m), "is_prime": _is_prime, "fits": lambda r, n: 0 <= r < _pow2(n),
     "imod": lambda a, b: a % b, "idiv": lambda a, b: a // b, "ite": lambda c, a, b: a if c else b,
     "is_none": lambda x: x is None, "bval": lambda b: int.from_bytes(b, "big"), "blen": len, "euclid": lambda *a: True, "divmod_def": lambda *a: True, "bor": lambda a, b: a | b, "by": lambda g, *a: g, "div_lt": lambda *a: True, "pow2_add": lambda *a: True,
 }
